@@ -415,6 +415,33 @@ theorem recursive_post (c : Cfg) (fs fs' : FS) (m : Mutation) (hi : FS.Inv fs)
   obtain ⟨i, hi', ha⟩ := hg' p (List.mem_cons_of_mem _ hp)
   exact ⟨i, by simp [follow, hi'], ha.1, ha.2⟩
 
+/-- what a successful `mutateHardLink` leaves: the entry at the path *is* the node the source
+resolves to (one inode, two names) -/
+theorem mutateHardLink_post (c : Cfg) (hc : c.posix = false) (fs fs' : FS) (m : Mutation)
+    (h : mutateHardLink c fs m = (fs', none)) :
+    ∃ t, entryOf c fs' m.path = some t ∧ follow c fs' m.source = some t := by
+  unfold mutateHardLink at h
+  obtain ⟨fs0, _, h1⟩ := andThen_ok h
+  obtain ⟨fs2, _, h3⟩ := andThen_ok h1
+  obtain ⟨pi, t, hg, hd, ho, hfree, rfl⟩ := link_ok h3
+  obtain ⟨hext, hlk⟩ := ext_link (fs := fs2) pi t (base m.path) hd hfree
+  refine ⟨t, ?_, ?_⟩
+  · simp only [entryOf, parentOf, getNode_ext hc hext hg]; exact hlk
+  · simp [follow, getNode_ext hc hext ho]
+
+/-- **mutation_post (hardlink)**: after a successful iteration the entry at the declared path and
+the declared source are the same inode, which carries the declared permission bits and owner. -/
+theorem hardlink_post (c : Cfg) (hc : c.posix = false) (fs fs' : FS) (m : Mutation) (hi : FS.Inv fs)
+    (ht : m.type = tHardlink) (h : mutateOne c fs m = (fs', none)) :
+    ∃ t, entryOf c fs' m.path = some t ∧ follow c fs' m.source = some t := by
+  rw [mutateOne_hardlink c fs m ht] at h
+  obtain ⟨fs1, h1, h2⟩ := andThen_ok (liftE_ok h)
+  have hi1 : FS.Inv fs1 := by have := inv_mutateHardLink c fs m hi; rw [h1] at this; exact this
+  obtain ⟨t, he, hf⟩ := mutateHardLink_post c hc fs fs1 m h1
+  obtain ⟨i, _, _, _, _, _, _, _, hsh, _⟩ := perm_post c fs1 fs' hi1 m.path m.perms m.uid m.gid h2
+  refine ⟨t, by rw [entryOf_shape hsh]; exact he, ?_⟩
+  simp only [follow, getNode_shape hsh c m.source] at hf ⊢; exact hf
+
 /-- **applied in order**: when a whole list of mutations succeeds, the last one was applied — as one
 iteration of the loop — to the state its predecessors produced (which satisfies the graph
 invariant), so every per-mutation theorem of this file speaks about the final state for the last
